@@ -86,6 +86,7 @@ ObsOf(S, a, site, inp, E) ==
       narg |-> IF S2.pc[a] = "S_Sweep" THEN L2.shard ELSE IF S2.pc[a] = "K_DelKw" THEN L2.id ELSE 0,
       op |-> IF site = "C_Idle" THEN inp.op ELSE L.op,
       ret |-> E.ret,
+      truth |-> <<>>,
       ev |-> evRecv \o evVic \o evSend]
 
 Digest(vs) == {[prop |-> vs[i].prop, kind |-> vs[i].kind, finding |-> vs[i].finding, what |-> vs[i].what] : i \in DOMAIN vs}
@@ -109,7 +110,7 @@ Step(a) ==
 Advance ==
   /\ st.now < CfgRec.clock0 + Horizon
   /\ LET S2 == EffAdvance(st, 1)
-         o == [next |-> "E_Advance", narg |-> 0, op |-> NoOp, ret |-> NoRet, ev |-> <<>>]
+         o == [next |-> "E_Advance", narg |-> 0, op |-> NoOp, ret |-> NoRet, ev |-> <<>>, truth |-> <<>>]
          G2 == GhostNext(gh, st, "env", "E_Advance", NoInp, S2, o)
      IN /\ st' = S2
         /\ gh' = G2
